@@ -256,6 +256,23 @@ def run_cc(case, r):
     r.sample = dict(variant=v, order=[(type(ccs[i]).__name__, float(ccs[i].params.control_order)) for i in order])
 
 
+# names one slip away from a valid one (calibrated: none of them is an alias the libraries accept); a validation that only looks
+# at a prefix, a suffix or the lower-cased name lets some of them through
+NEAR_MISS = dict(
+    residual_type=['foo', 'full', 'last', 'full_relative', 'last_real', 'full_ABS', 'FULL_abs', 'full_abs_rel', 'fullabs', 'full_max', 'full_abs ', 'full-abs', 'abs', 'rel_full', 'last_absolute', 'last_'],
+    quad_type=['foo', 'RADAU', 'RADAU-RIGHTT', 'radau-right', 'RADAU_RIGHT', 'RADAU-MIDDLE', 'GAUS', 'LOBATTO2', 'Radau-Right', 'RADAU-RIGHT '],
+    node_type=['foo', 'LEGENDRE2', 'CHEBY', 'CHEBY-5', 'legendre', 'EQUI', 'EQUID ', 'Equid', 'CHEBY_1'],
+    QI=['foo', 'LU3', 'MIN-SR', 'IE2', 'lu', 'Lu', 'MIN-SR-X', 'IEPAR', 'IEpar2', 'LU '],
+    initial_guess=['foo', 'spread2', 'Spread', 'zeros', 'copy ', 'random2', 'spread_', 'SPREAD'],
+    predict_type=['foo', 'fine_only2', 'Fine_only', 'pfasst_burn_in', 'libpfasst', 'pfasst_burnin ', 'fine-only'],
+)
+
+
+def near_miss(rng, param):
+    lst = NEAR_MISS[param]
+    return lst[int(rng.integers(0, len(lst)))]
+
+
 def run_fault(case, r):
     from pySDC.implementations.controller_classes.controller_nonMPI import controller_nonMPI
 
@@ -275,24 +292,24 @@ def run_fault(case, r):
     elif f == 'no space transfer':
         d.pop('space_transfer_class')
     elif f == 'bad predict_type ML':
-        cp['predict_type'] = 'foo'
+        cp['predict_type'] = near_miss(rng, 'predict_type')
     elif f == 'bad residual_type':
-        d['level_params']['residual_type'] = 'foo'
+        d['level_params']['residual_type'] = near_miss(rng, 'residual_type')
     elif f == 'bad initial_guess':
-        d['sweeper_params']['initial_guess'] = 'foo'
+        d['sweeper_params']['initial_guess'] = near_miss(rng, 'initial_guess')
     elif f == 'bad quad_type':
-        d['sweeper_params']['quad_type'] = 'foo'
+        d['sweeper_params']['quad_type'] = near_miss(rng, 'quad_type')
     elif f == 'bad node_type':
-        d['sweeper_params']['node_type'] = 'foo'
+        d['sweeper_params']['node_type'] = near_miss(rng, 'node_type')
     elif f == 'bad QI':
-        d['sweeper_params']['QI'] = 'foo'
+        d['sweeper_params']['QI'] = near_miss(rng, 'QI')
     elif f == 'bad QE':
         from pySDC.implementations.sweeper_classes.imex_1st_order import imex_1st_order
         from pySDC.implementations.problem_classes.HeatEquation_ND_FD import heatNd_forced
 
         d['sweeper_class'] = imex_1st_order
         d['problem_class'] = heatNd_forced
-        d['sweeper_params']['QE'] = 'foo'
+        d['sweeper_params']['QE'] = near_miss(rng, 'QI')
     elif f == 'nsweeps coarse>1':
         d['level_params']['nsweeps'] = [1] * (nlev - 1) + [2]
     elif f == 'PFASST GAUSS':
@@ -345,7 +362,7 @@ def run_fault(case, r):
             ctrl.run(P.u_exact(0.0), 0.0, 0.05 * procs)
         except BaseException as e:  # noqa
             rejected = type(e).__name__
-    r.check(rejected is not None, 'invalid-setup-rejected', f'fault {f!r} on a {nlev}-level, {procs}-step description was silently accepted (construction and first run completed): {spec["desc"]}')
+    r.check(rejected is not None, 'invalid-setup-rejected', f'fault {f!r} on a {nlev}-level, {procs}-step description was silently accepted (construction and first run completed): controller_params {cp}, description {d}')
     r.nontrivial = True
     r.observe('fault', f'{f}:{rejected}')
     r.sample = dict(fault=f, rejected_with=rejected, nlev=nlev, procs=procs)
